@@ -13,14 +13,16 @@ import (
 
 // outcome is what one execution of a case produced, beyond the per-subscription records in the world.
 type outcome struct {
-	w            *world
-	inconclusive []string // a wait that is only a synchronisation aid expired: the case gives no verdict
-	liveness     []string // an event that must happen did not, even after re-sampling twice after a long grace
-	leak         string   // quiescence: connections still open long after the last subscription ended
-	stats        client.Stats
-	aidExpired   []string
-	idleWaited   bool // waited out a pending idle timer on a reused connection with live subscriptions
-	joinedDial   int  // subscriptions started while an un-acked connection of their tuple existed (probable dial joiners)
+	w                                                     *world
+	inconclusive                                          []string // a wait that is only a synchronisation aid expired: the case gives no verdict
+	liveness                                              []string // an event that must happen did not, even after re-sampling twice after a long grace
+	leak                                                  string   // quiescence: connections still open long after the last subscription ended
+	stats                                                 client.Stats
+	aidExpired                                            []string
+	sentWhileBlocked, cancelWhileBlocked, subWhileBlocked int  // steps executed while a blocked handler held the connection's reader
+	abandoned                                             int  // dials abandoned by their dialler through "abandon" steps
+	idleWaited                                            bool // waited out a pending idle timer on a reused connection with live subscriptions
+	joinedDial                                            int  // subscriptions started while an un-acked connection of their tuple existed (probable dial joiners)
 }
 
 // established is set once this process has reported a time-based violation (liveness or quiescence)
@@ -189,6 +191,12 @@ func (o *outcome) step(s Step) bool {
 		if pending {
 			o.joinedDial++
 		}
+		for j, sj := range w.subs {
+			if j != i && c.Subs[j].Tuple == k && sj.blockedNow && sj.conn != nil && !sj.conn.closed && !sj.conn.dropped {
+				o.subWhileBlocked++ // the pooled connection's reader stands still in a handler: Subscribe must still return
+				break
+			}
+		}
 		w.mu.Unlock()
 		w.start(i)
 		if open {
@@ -236,6 +244,9 @@ func (o *outcome) step(s Step) bool {
 	case "send":
 		i := s.Sub
 		st := w.subs[i]
+		w.mu.Lock()
+		actsBefore := len(st.handlerActs)
+		w.mu.Unlock()
 		ok, m := w.sendNext(i)
 		if !ok {
 			return true
@@ -245,19 +256,53 @@ func (o *outcome) step(s Step) bool {
 		pos := len(st.sent) - 1
 		wrote := st.sent[pos].ok
 		uc := st.conn
+		stalled := w.readerBlocked(i) // a blocked handler holds up delivery on this connection: documented, not asserted
+		if stalled {
+			o.sentWhileBlocked++
+		}
 		w.mu.Unlock()
-		if !cancelled && wrote {
+		if !cancelled && wrote && !stalled {
 			if !o.expect(fmt.Sprintf("sub %d receives message #%d (%s) the upstream sent for it", i, pos, m.Kind), func() bool {
-				return st.terminalAt() >= 0 || len(st.msgs) > pos
+				return st.terminalAt() >= 0 || len(st.msgs) > pos || st.cancelIssued
 			}) {
 				return false
 			}
 		}
-		if m.Kind != "next" && uc != nil && c.IdleMs == 0 {
+		// a handler that cancels (itself or another subscription) from inside the delivery: the cancel must return
+		w.mu.Lock()
+		var tgt *subState
+		if on := c.Subs[i].On; on != nil && len(st.handlerActs) > actsBefore {
+			switch on.Act {
+			case "cancel-self":
+				tgt = st
+			case "cancel-other":
+				if on.Other >= 0 && on.Other < len(w.subs) {
+					tgt = w.subs[on.Other]
+				}
+			}
+		}
+		w.mu.Unlock()
+		if tgt != nil {
+			if !o.expect(fmt.Sprintf("the cancel of sub %d issued from inside the handler of sub %d (on its message #%d) returns", tgt.i, i, c.Subs[i].On.At), func() bool {
+				return !tgt.started || tgt.cancelDone
+			}) {
+				return false
+			}
+			if tuc := tgt.conn; tuc != nil && c.IdleMs == 0 {
+				o.aid("conn-closed-after-handler-cancel", func() bool { return w.liveOn(tuc) > 0 || tuc.closed || w.readerBlockedConn(tuc) })
+			}
+		}
+		if m.Kind != "next" && uc != nil && c.IdleMs == 0 && !stalled {
 			// last subscription gone => the client closes the connection; wait until the upstream sees that
 			// so that the next step does not race with the close.
 			o.aid("conn-closed-after-last-terminal", func() bool { return w.liveOn(uc) > 0 || uc.closed })
 		}
+	case "release":
+		i := s.Sub
+		w.releaseHandler(i)
+		o.settleDeliveries(i)
+	case "abandon":
+		return o.abandon(s.Key, s.Sub)
 	case "cancel", "expire":
 		i := s.Sub
 		st := w.subs[i]
@@ -269,6 +314,11 @@ func (o *outcome) step(s Step) bool {
 					pendingConns = append(pendingConns, uc)
 				}
 			}
+		}
+		w.mu.Unlock()
+		w.mu.Lock()
+		if st.started && st.returned && st.err == nil && !st.blockedNow && w.readerBlocked(i) {
+			o.cancelWhileBlocked++ // another subscription's handler holds this connection's reader: the cancel must still return
 		}
 		w.mu.Unlock()
 		if s.Op == "expire" {
@@ -320,6 +370,13 @@ func (o *outcome) step(s Step) bool {
 		}
 	case "drop":
 		k := s.Key
+		// a reader that stands still in a blocked handler would not notice the drop: let it run first
+		for i := range w.subs {
+			if c.Subs[i].Tuple == k && c.Subs[i].On != nil && c.Subs[i].On.Act == "block" {
+				w.releaseHandler(i)
+				o.settleDeliveries(i)
+			}
+		}
 		w.mu.Lock()
 		var ucs []*upConn
 		var uss []*upStream
@@ -353,7 +410,7 @@ func (o *outcome) step(s Step) bool {
 			w.mu.Lock()
 			need := st.dropped && !st.cancelIssued && st.returned && st.err == nil && st.terminalAt() < 0
 			w.mu.Unlock()
-			if need && !o.expect(fmt.Sprintf("sub %d is told that its upstream connection was dropped", i), func() bool { return st.terminalAt() >= 0 }) {
+			if need && !o.expect(fmt.Sprintf("sub %d is told that its upstream connection was dropped", i), func() bool { return st.terminalAt() >= 0 || st.cancelIssued }) {
 				return false
 			}
 		}
@@ -395,7 +452,7 @@ func (o *outcome) step(s Step) bool {
 		w.mu.Unlock()
 		for _, st := range victims {
 			st := st
-			if !o.expect(fmt.Sprintf("sub %d is told that its connection stopped answering pings", st.i), func() bool { return st.terminalAt() >= 0 }) {
+			if !o.expect(fmt.Sprintf("sub %d is told that its connection stopped answering pings", st.i), func() bool { return st.terminalAt() >= 0 || st.cancelIssued }) {
 				return false
 			}
 		}
@@ -497,6 +554,9 @@ func (o *outcome) burst() {
 // cancels whatever is still running and watches the client go quiet.
 func (o *outcome) finish() {
 	w, c := o.w, o.w.c
+	for i := range w.subs {
+		w.releaseHandler(i)
+	}
 	if len(o.liveness) == 0 && len(o.inconclusive) == 0 {
 		for k := range c.Tuples {
 			w.openGate(k)
@@ -537,7 +597,7 @@ func (o *outcome) finish() {
 			}
 			// an un-cancelled subscription on a healthy connection must end up with everything the upstream wrote for it
 			full := func() bool {
-				if st.terminalAt() >= 0 {
+				if st.terminalAt() >= 0 || st.cancelIssued { // cancelIssued: a handler may cancel it while we wait
 					return true
 				}
 				for _, m := range st.sent {
@@ -632,4 +692,113 @@ func okCount(s []sent) int {
 		}
 	}
 	return n
+}
+
+// readerBlockedConn: some handler on uc is blocked. Callers hold w.mu.
+func (w *world) readerBlockedConn(uc *upConn) bool {
+	for _, j := range uc.ids {
+		if w.subs[j].blockedNow {
+			return true
+		}
+	}
+	return false
+}
+
+// settleDeliveries waits (aid) until everything the upstream wrote on the connection of subscription i
+// while its reader stood still has reached the handlers, so that the next step starts from a settled state.
+func (o *outcome) settleDeliveries(i int) {
+	w := o.w
+	o.aid("deliveries-after-release", func() bool {
+		st := w.subs[i]
+		ids := []int{i}
+		if st.conn != nil {
+			ids = ids[:0]
+			for _, j := range st.conn.ids {
+				ids = append(ids, j)
+			}
+		}
+		for _, j := range ids {
+			sj := w.subs[j]
+			if sj.cancelIssued || sj.terminalAt() >= 0 || sj.blockedNow || (sj.conn != nil && (sj.conn.closed || sj.conn.dropped)) {
+				continue
+			}
+			if len(sj.msgs) < okCount(sj.sent) {
+				return false
+			}
+		}
+		return true
+	})
+}
+
+// abandon cancels whoever is dialling tuple k right now - never a subscription with index >= keep (the
+// survivors of the case). Which in-flight
+// caller is the dialler cannot be observed directly; the un-acked connection going away can. In-flight
+// callers are therefore ended one at a time (cancel / own deadline alternating) until the upstream sees the
+// pending connection(s) of that tuple close; ending a mere waiter on the way is harmless. Afterwards the
+// surviving callers race for the next dial, whose connection_init is the event the step waits for.
+func (o *outcome) abandon(k, keep int) bool {
+	w, c := o.w, o.w.c
+	w.mu.Lock()
+	var pend []*upConn
+	for _, uc := range w.conns {
+		if uc.tuple == k && uc.initSeen && !uc.acked && !uc.closed && !uc.dropped {
+			pend = append(pend, uc)
+		}
+	}
+	var cands []*subState
+	for i, st := range w.subs {
+		if c.Subs[i].Tuple == k && i < keep && st.started && !st.returned && !st.cancelIssued {
+			cands = append(cands, st)
+		}
+	}
+	n0 := w.initCount(k)
+	gateOpen := w.gateOpen[k]
+	w.mu.Unlock()
+	if len(pend) == 0 || gateOpen || c.Tuples[k].SSE {
+		return true
+	}
+	gone := func() bool {
+		for _, uc := range pend {
+			if !uc.closed {
+				return false
+			}
+		}
+		return true
+	}
+	hit := false
+	for n, st := range cands {
+		st := st
+		w.endSub(st.i, true, n%2 == 1, false)
+		if !o.expect(fmt.Sprintf("Subscribe of sub %d returns after it was cancelled during the dial", st.i), func() bool { return st.returned && st.cancelDone }) {
+			return false
+		}
+		if w.wait(2*settle, 0, gone) {
+			hit = true
+			break
+		}
+	}
+	if !hit {
+		return true
+	}
+	o.abandoned++
+	w.mu.Lock()
+	for i, st := range w.subs {
+		if c.Subs[i].Tuple == k && st.started && !st.cancelIssued && st.startSeq > 0 && (!st.returned || st.err != nil) {
+			st.satThrough++ // waited on a dial that its dialler abandoned
+		}
+	}
+	w.mu.Unlock()
+	// the survivors race for the next dial; its connection_init is observable (aid: nobody may be left)
+	o.aid("next-dial-after-abandon", func() bool {
+		if w.initCount(k) > n0 {
+			return true
+		}
+		for i, st := range w.subs {
+			if c.Subs[i].Tuple == k && st.started && !st.returned {
+				return false
+			}
+		}
+		return true
+	})
+	return true
 }
